@@ -39,6 +39,8 @@ func runC19(w *World, c *Check) {
 	c.Rule("C19.signature", "PAC processing succeeds only after the mandatory buffers are present and the server signature verifies over the zeroed PAC with the service's key and usage 17", 10)
 	c.Rule("C19.zeroing", "the verified data is the PAC with both signature fields zeroed: exactly [Offset, Offset+Size) replaced by a copy with bytes [4, 4+c) zero, in both signature cases", 6)
 	c.Rule("C19.sizes", "signature length per checksum type equals GetHMACBitLength()/8 of the etype that type selects", 5)
+	c.Rule("C19.faithful", "PACType.verify never returns (false, nil): ProcessPACInfoBuffers reports verify's error when it fails", 3)
+	c.Rule("C19.dedup", "in GetGroupMembershipSIDs the already-present flag that guards an append is decided afresh for every SID: it is not carried from one SID of the list to the next", 2)
 	c.Rule("C19.report", "ADCredentials fields come from the same-named members of the verified KerbValidationInfo, only when processing succeeded", 22)
 
 	// ---- rule 1 ---------------------------------------------------------------------
@@ -120,6 +122,19 @@ func runC19(w *World, c *Check) {
 				}
 			}
 		}
+		// only the first buffer of each signature type is zeroed (and used): a repeated buffer is
+		// skipped before anything is blanked, otherwise its bytes drop out of the signed data
+		first := 0
+		for _, ci := range fa.Calls(`copy`) {
+			if a := fa.CallArgs(ci); strings.HasPrefix(a[0], "recv.ZeroSigData[") {
+				for _, f := range fa.factsOn(&Edge{ci.Block().Preds[0], succIndex(ci.Block().Preds[0], ci.Block())}) {
+					if f.c.Kind == "eq" && f.holds && ((f.c.L == "nil" && (f.c.R == "recv.ServerChecksum" || f.c.R == "recv.KDCChecksum")) || (f.c.R == "nil" && (f.c.L == "recv.ServerChecksum" || f.c.L == "recv.KDCChecksum"))) {
+						first++
+					}
+				}
+			}
+		}
+		c.Decide(first == 2, "C19.zeroing", FuncKey(fn), "first-of-type-only", w.Pos(fn.Pos()), "each zeroing is reached only while no signature of that type has been taken yet (subsequent buffers of the type are ignored untouched)", fmt.Sprintf("%d of the zeroing copies are dominated by `recv.<Server|KDC>Checksum == nil`", first))
 		c.Decide(tab["6"] && tab["7"], "C19.zeroing", FuncKey(fn), "cases-6-and-7", w.Pos(fn.Pos()), "the zeroing happens for buffer types 6 (server signature) and 7 (KDC signature) — MS-PAC §2.4", fmt.Sprintf("zeroing under buffer types %v", sortedKeys(tab)))
 	}
 	if fn := w.Func("pac.(*SignatureData).Unmarshal"); fn == nil {
@@ -219,6 +234,8 @@ func runC19(w *World, c *Check) {
 			}
 		}
 	}
+	ruleFalseHasError(w, c, "C19.faithful", "pac.(*PACType).verify")
+	rulePerItemFlag(w, c, "C19.dedup", "pac.(*KerbValidationInfo).GetGroupMembershipSIDs")
 }
 
 func succIndex(from, to *ssa.BasicBlock) int {
@@ -237,4 +254,74 @@ func edgesComplement(fa *FuncAn, es []Edge) []Edge {
 		out = append(out, Edge{e.From, 1 - e.Succ})
 	}
 	return out
+}
+
+// rulePerItemFlag: in a loop that appends an item unless a flag says it is already present, the
+// flag belongs to the item: no phi of the flag's web may sit at the header of the loop that
+// contains the append (that would carry the previous item's verdict into the next one — every
+// item after the first duplicate is dropped).
+func rulePerItemFlag(w *World, c *Check, rule, fk string) {
+	fn := w.Func(fk)
+	if fn == nil {
+		c.Missing(rule, fk)
+		return
+	}
+	fa := NewFuncAn(w, fn)
+	n := 0
+	for _, b := range fn.Blocks {
+		iff, ok := lastInstr(b).(*ssa.If)
+		if !ok {
+			continue
+		}
+		cond := stripNot(iff.Cond)
+		if _, isPhi := cond.(*ssa.Phi); !isPhi {
+			continue
+		}
+		// one successor appends to a slice
+		appends := false
+		var ap ssa.Instruction
+		for _, sb := range b.Succs {
+			if len(sb.Preds) != 1 {
+				continue
+			}
+			for _, in := range sb.Instrs {
+				if call, isCall := in.(*ssa.Call); isCall {
+					if bi, isB := call.Call.Value.(*ssa.Builtin); isB && bi.Name() == "append" {
+						appends = true
+						ap = in
+					}
+				}
+			}
+		}
+		if !appends {
+			continue
+		}
+		outer := loopHeaderOf(ap.Block())
+		if outer == nil {
+			continue
+		}
+		n++
+		seen := map[ssa.Value]bool{}
+		carried := false
+		var walk func(v ssa.Value)
+		walk = func(v ssa.Value) {
+			if seen[v] {
+				return
+			}
+			seen[v] = true
+			if phi, isPhi := v.(*ssa.Phi); isPhi {
+				if phi.Block() == outer {
+					carried = true
+				}
+				for _, e := range phi.Edges {
+					walk(e)
+				}
+			}
+		}
+		walk(cond)
+		c.Decide(!carried, rule, fk, fmt.Sprintf("flag#%d", n), w.Pos(InstrPos(iff)), "the flag guarding the append is decided afresh for every item of the loop", "the flag "+fa.R.R(cond)+" is carried around the loop that contains the append: after the first item found present, every later item is dropped")
+	}
+	if n == 0 {
+		c.Fail(rule, fk, "flag", w.Pos(fn.Pos()), "the function appends items under an already-present flag", "no such construct found")
+	}
 }
